@@ -1,2 +1,164 @@
-(* C11 — bit-level buffer operations equal a naive bit-vector model (statements pinned here). *)
-From A1 Require Import Bits.Naive Bits.Copy.
+(* C11 — bit-level buffer operations equal a naive bit-vector model (statements pinned here).
+   This file only pins statements; proofs live in Bits/Proofs.v. *)
+From A1 Require Import Bits.Naive Bits.Copy Bits.Proofs.
+Local Open Scope N_scope.
+
+Theorem C11_bitwise_exact : forall m src sp dst dp len,
+  Forall (fun b => b < 256) src -> Forall (fun b => b < 256) dst ->
+  sp + len < two64 -> dp + len < two64 ->
+  sp + len <= 8 * blen src -> dp + len <= 8 * blen dst ->
+  exists dst', bit_string_copy m src sp dst dp len = Ok dst' /\
+    bits_of_bytes dst' =
+      splice (N.to_nat dp) (slice (bits_of_bytes src) (N.to_nat sp) (N.to_nat len)) (bits_of_bytes dst)
+    /\ length dst' = length dst /\ Forall (fun b => b < 256) dst'.
+Proof. exact bitwise_exact. Qed.
+
+Theorem C11_bitwise_short : forall m src sp dst dp len,
+  sp + len < two64 -> dp + len < two64 ->
+  (8 * blen dst < dp + len -> bit_string_copy m src sp dst dp len = Err E_INSUFFICIENT_DST)
+  /\ (dp + len <= 8 * blen dst -> 8 * blen src < sp + len ->
+      bit_string_copy m src sp dst dp len = Err E_INSUFFICIENT_SRC).
+Proof. exact bitwise_short. Qed.
+
+Theorem C11_bitwise_no_panic : forall m src sp dst dp len,
+  sp + len < two64 -> dp + len < two64 ->
+  is_panic (bit_string_copy m src sp dst dp len) = false.
+Proof. exact bitwise_no_panic. Qed.
+
+Theorem C11_bit_ops : forall buf pos, Forall (fun b => b < 256) buf ->
+  (forall bit,
+     (pos < 8 * blen buf ->
+        exists buf', slice_write_bit buf pos bit = Ok (buf', pos + 1)
+          /\ bits_of_bytes buf' = splice (N.to_nat pos) [bit] (bits_of_bytes buf)
+          /\ length buf' = length buf /\ Forall (fun b => b < 256) buf')
+     /\ (8 * blen buf <= pos -> slice_write_bit buf pos bit = Err E_END_OF_STREAM))
+  /\ (pos < 8 * blen buf ->
+        exists b, slice_read_bit buf pos = Ok (b, pos + 1)
+          /\ [b] = slice (bits_of_bytes buf) (N.to_nat pos) 1)
+  /\ (8 * blen buf <= pos -> slice_read_bit buf pos = Err E_END_OF_STREAM).
+Proof. exact bit_ops. Qed.
+
+Theorem C11_bulk_exact : forall m src sp dst dp len,
+  Forall (fun b => b < 256) src -> Forall (fun b => b < 256) dst ->
+  sp + len < two64 -> dp + len < two64 ->
+  sp + len <= 8 * blen src -> dp + len <= 8 * blen dst ->
+  exists dst', bit_string_copy_bulked m src sp dst dp len = Ok dst' /\
+    bits_of_bytes dst' =
+      splice (N.to_nat dp) (slice (bits_of_bytes src) (N.to_nat sp) (N.to_nat len)) (bits_of_bytes dst)
+    /\ length dst' = length dst /\ Forall (fun b => b < 256) dst'.
+Proof. exact bulk_exact. Qed.
+
+Theorem C11_bulk_short : forall m src sp dst dp len,
+  sp + len < two64 -> dp + len < two64 ->
+  (8 * blen dst < dp + len -> bit_string_copy_bulked m src sp dst dp len = Err E_INSUFFICIENT_DST)
+  /\ (dp + len <= 8 * blen dst -> 8 * blen src < sp + len ->
+      bit_string_copy_bulked m src sp dst dp len = Err E_INSUFFICIENT_SRC).
+Proof. exact bulk_short. Qed.
+
+Theorem C11_bulk_no_panic : forall m src sp dst dp len,
+  Forall (fun b => b < 256) src -> Forall (fun b => b < 256) dst ->
+  sp + len < two64 -> dp + len < two64 ->
+  is_panic (bit_string_copy_bulked m src sp dst dp len) = false.
+Proof. exact bulk_no_panic. Qed.
+
+Theorem C11_write_exact : forall m dst pos src soff slen,
+  Forall (fun b => b < 256) src -> Forall (fun b => b < 256) dst ->
+  soff + slen < two64 -> pos + slen < two64 ->
+  soff + slen <= 8 * blen src -> pos + slen <= 8 * blen dst ->
+  exists dst', slice_write_bits m dst pos src soff slen = Ok (dst', pos + slen) /\
+    bits_of_bytes dst' =
+      splice (N.to_nat pos) (slice (bits_of_bytes src) (N.to_nat soff) (N.to_nat slen)) (bits_of_bytes dst)
+    /\ length dst' = length dst /\ Forall (fun b => b < 256) dst'.
+Proof. exact write_bits_exact. Qed.
+
+Theorem C11_read_mirror : forall m src pos dst doff dlen,
+  Forall (fun b => b < 256) src -> Forall (fun b => b < 256) dst ->
+  pos + dlen < two64 -> doff + dlen < two64 ->
+  pos + dlen <= 8 * blen src -> doff + dlen <= 8 * blen dst ->
+  exists dst', slice_read_bits m src pos dst doff dlen = Ok (dst', pos + dlen) /\
+    bits_of_bytes dst' =
+      splice (N.to_nat doff) (slice (bits_of_bytes src) (N.to_nat pos) (N.to_nat dlen)) (bits_of_bytes dst)
+    /\ length dst' = length dst /\ Forall (fun b => b < 256) dst'.
+Proof. exact read_bits_mirror. Qed.
+
+(* ... and they literally are the length-1 instances of bit_string_copy *)
+Theorem C11_bit_ops_copies : forall m buf pos, Forall (fun b => b < 256) buf ->
+  pos < 8 * blen buf -> pos + 1 < two64 ->
+  (forall bit, exists buf', slice_write_bit buf pos bit = Ok (buf', pos + 1)
+      /\ bit_string_copy m [if bit then 128 else 0] 0 buf pos 1 = Ok buf')
+  /\ (exists b, slice_read_bit buf pos = Ok (b, pos + 1)
+      /\ bit_string_copy m buf pos [0] 0 1 = Ok [if b then 128 else 0]).
+Proof. exact bit_ops_are_copies. Qed.
+
+(* BitBuffer: [bb_inv] (buffer length is ceil(wpos/8), all elements are bytes, every bit at
+   or after the write position is zero) holds for the empty buffer and is preserved by every
+   write that returns [Ok], whether or not it carries an error kind ... *)
+Theorem C11_buffer_inv_step :
+  bb_inv bb_empty
+  /\ (forall m b bit b' e, bb_inv b -> bb_wpos b + 1 < two63 ->
+        bb_write_bit m b bit = Ok (b', e) -> bb_inv b')
+  /\ (forall m b src soff slen b' e, bb_inv b -> Forall (fun x => x < 256) src ->
+        soff + slen < two64 -> bb_wpos b + slen < two63 ->
+        bb_write_bits_ol m b src soff slen = Ok (b', e) -> bb_inv b')
+  /\ (forall m b src soff b' e, bb_inv b -> Forall (fun x => x < 256) src ->
+        soff <= 8 * blen src -> 8 * blen src < two64 -> bb_wpos b + (8 * blen src - soff) < two63 ->
+        bb_write_bits_o m b src soff = Ok (b', e) -> bb_inv b').
+Proof. exact buffer_inv_step. Qed.
+
+(* ... hence for every buffer reachable from the empty one by a list of write operations
+   (errors ignored by the caller), as long as fewer than 2^63 bits are requested in total;
+   such runs never panic. *)
+Theorem C11_buffer_inv : forall m ops,
+  Forall wop_ok ops -> wops_len ops < two63 ->
+  exists b', fold_left (wop_step m) ops (Ok bb_empty) = Ok b'
+    /\ bb_inv b' /\ bb_wpos b' <= wops_len ops.
+Proof. exact buffer_inv. Qed.
+
+(* BitBuffer writes are [append] on bit lists *)
+Theorem C11_buffer_refines :
+  (forall m b src soff slen b', bb_inv b -> Forall (fun x => x < 256) src ->
+     soff + slen < two64 -> bb_wpos b + slen < two63 ->
+     bb_write_bits_ol m b src soff slen = Ok (b', None) ->
+     bb_wpos b' = bb_wpos b + slen /\ bb_rpos b' = bb_rpos b
+     /\ firstn (N.to_nat (bb_wpos b')) (bits_of_bytes (bb_buf b'))
+        = firstn (N.to_nat (bb_wpos b)) (bits_of_bytes (bb_buf b))
+          ++ slice (bits_of_bytes src) (N.to_nat soff) (N.to_nat slen))
+  /\ (forall m b bit b', bb_inv b -> bb_wpos b + 1 < two63 ->
+     bb_write_bit m b bit = Ok (b', None) ->
+     bb_wpos b' = bb_wpos b + 1 /\ bb_rpos b' = bb_rpos b
+     /\ firstn (N.to_nat (bb_wpos b')) (bits_of_bytes (bb_buf b'))
+        = firstn (N.to_nat (bb_wpos b)) (bits_of_bytes (bb_buf b)) ++ [bit]).
+Proof. exact buffer_refines. Qed.
+
+(* non-vacuity: the witness of the repaired defect (bits after the copied range survive),
+   satisfiable instances of the hypotheses of the copy theorems, and a run of write
+   operations (the last one fails with InsufficientSource and is ignored) *)
+Example C11_nonvacuous :
+  bit_string_copy_bulked dev_mode [0;0;0;0;0] 0 [255;255;255;255;255] 1 17 = Ok [128;0;63;255;255]
+  /\ (Forall (fun b => b < 256) [0;0;0;0;0] /\ Forall (fun b => b < 256) [255;255;255;255;255]
+      /\ 0 + 17 < two64 /\ 1 + 17 < two64
+      /\ 0 + 17 <= 8 * blen [0;0;0;0;0] /\ 1 + 17 <= 8 * blen [255;255;255;255;255])
+  /\ (let ops := [WBit true; WBits [1;2;3] 3 20; WBitsO [1;2;3] 5; WBits [1] 0 9] in
+      Forall wop_ok ops /\ wops_len ops < two63
+      /\ fold_left (wop_step dev_mode) ops (Ok bb_empty)
+         = Ok {| bb_buf := [132; 8; 9; 2; 3]; bb_wpos := 40; bb_rpos := 0 |}).
+Proof.
+  split; [vm_compute; reflexivity|]. split.
+  - repeat split; try (repeat constructor; reflexivity); vm_compute; congruence.
+  - cbv zeta. split; [|split; vm_compute; reflexivity].
+    repeat constructor; vm_compute; congruence.
+Qed.
+
+Print Assumptions C11_bitwise_exact.
+Print Assumptions C11_bitwise_short.
+Print Assumptions C11_bitwise_no_panic.
+Print Assumptions C11_bit_ops.
+Print Assumptions C11_bit_ops_copies.
+Print Assumptions C11_bulk_exact.
+Print Assumptions C11_bulk_short.
+Print Assumptions C11_bulk_no_panic.
+Print Assumptions C11_write_exact.
+Print Assumptions C11_read_mirror.
+Print Assumptions C11_buffer_inv_step.
+Print Assumptions C11_buffer_inv.
+Print Assumptions C11_buffer_refines.
